@@ -49,6 +49,18 @@ type V struct {
 func NewV(a bool, b int64) V { return V{a, b} }
 `
 
+const kgoSource = `// Package msg lives in a directory whose name is not its package name and ends in a keyword.
+package msg
+
+type M struct {
+	Topic string
+	Key   []byte
+	n     int
+}
+
+func New(topic string) M { return M{Topic: topic} }
+`
+
 const opSource = `// Package p (other/p) has the same name as the package goderive generates for.
 package p
 
@@ -88,6 +100,10 @@ func (w *World) Render() map[string]string {
 	if w.HasExt {
 		out["ext/ext.go"] = extSource
 		out["other/ext/ext.go"] = oextSource
+		if w.OextAlt {
+			out["other/ext/ext.go"] = strings.Replace(oextSource, "\tB string\n}", "\tB string\n\tp *int\n}", 1)
+		}
+		out["msg-go/msg.go"] = kgoSource
 		out["other/p/p.go"] = opSource
 	}
 	pname := "p"
@@ -240,6 +256,9 @@ func renderFile(pkgName string, uses map[string]bool, chunks []string, from stri
 	if uses["op"] {
 		imps = append(imps, fmt.Sprintf("\top %q", ModulePath+"/other/p"))
 	}
+	if uses["kgo"] {
+		imps = append(imps, fmt.Sprintf("\tkgo %q", ModulePath+"/msg-go"))
+	}
 	if uses[""] && from == "q" {
 		imps = append(imps, fmt.Sprintf("\tp %q", ModulePath+"/p"))
 	}
@@ -313,5 +332,7 @@ func (w *World) twinSource(pname string) string {
 	fmt.Fprintf(&sb, "\nfunc tw2(a *S1) uint64 { return %s(a) }\n", w.prefixOf("hash"))
 	fmt.Fprintf(&sb, "\nfunc tw3(a *S1) *S1 { return %s(a) }\n", w.prefixOf("clone"))
 	fmt.Fprintf(&sb, "\nfunc tw4(a, b *S1) { %s(a, b) }\n", w.prefixOf("deepcopy"))
+	// the nested call of the pending-name cluster, letter for letter: both packages have the same pending text in their first pass
+	fmt.Fprintf(&sb, "\nfunc tw5(m map[string]int) []string { return %s(%s(m)) }\n", w.prefixOf("sort"), w.prefixOf("keys"))
 	return sb.String()
 }
